@@ -138,3 +138,61 @@ Proof.
   unfold write_mat2. destruct (classify_mat fixed (tb (hcf h)) phs k) as [v|e]; simpl; auto.
   destruct (mat_set2 (comps (hcf h)) rows v dt k); reflexivity.
 Qed.
+
+(* ------------------------------------------------------------------ the repaired configuration calls: no restriction needed *)
+Lemma estepc_coh h o : hcoh h -> hcoh (fst (estepc true fixed h o)).
+Proof.
+  intros H. destruct o as [o|i k dt]; [|apply (estep_coh h (ESet i k dt)); simpl; auto].
+  destruct o as [o|o|i k|i k dt]; try (apply (hstep_coh h); simpl; auto).
+  simpl. destruct (cstep (hcf h) o) as [c' e]. unfold hcoh. simpl. apply coh_init.
+Qed.
+
+Lemma erunc_coh ops : forall h, hcoh h -> hcoh (fst (erunc true fixed h ops)).
+Proof.
+  induction ops as [|o r IH]; intros h H; simpl; auto.
+  pose proof (estepc_coh h o H) as H1. destruct (estepc true fixed h o) as [h' b]. simpl in *.
+  specialize (IH h' H1). destruct (erunc true fixed h' r) as [h'' bs]. exact IH.
+Qed.
+
+Definition eafterc (c : cfg) (ixs : list ixr) (sps : list vec) (hist : list eop) : hstate :=
+  fst (erunc true fixed (mkhs c (mkst [] [] ixs) sps) hist).
+
+Lemma eafterc_coh c ixs sps hist : hcoh (eafterc c ixs sps hist).
+Proof. apply erunc_coh. apply coh_init. Qed.
+
+Lemma cfgc_lookup_pure c ixs sps hist k :
+  let h := eafterc c ixs sps hist in
+  let t := tb (hcf h) in
+  snd (chem_lookup t (scc (hst h)) k) = classify_chem t k
+  /\ (forall phs, snd (mat_lookup fixed t phs (scc (hst h)) (mc_get (smc (hst h)) phs) k) = classify_mat fixed t phs k)
+  /\ (forall cas, snd (overlap fixed t (scc (hst h)) cas) = overlap_pure t cas).
+Proof.
+  intros h t. destruct (eafterc_coh c ixs sps hist) as [Hc Hm]. fold h in Hc, Hm. fold t in Hc, Hm.
+  split; [|split].
+  - apply chem_lookup_spec; auto.
+  - intros phs. apply mat_lookup_spec; auto.
+  - intros cas. apply overlap_spec; auto.
+Qed.
+
+Lemma read_coh h i k : hcoh h ->
+  snd (estepc true fixed h (EOp (HOp (OGet i k)))) =
+  HB (match nth_error (sixs (hst h)) i with
+      | Some (IC d) => obs_of_read (read_chem (tb (hcf h)) d k)
+      | Some (IM phs rows) => obs_of_read (read_mat fixed (tb (hcf h)) (nchem (hcf h)) phs rows k)
+      | None => BErr EOther
+      end).
+Proof.
+  intros H. pose proof (read_history_independent (hcf h) (hst h) i k H) as R.
+  cbn [estepc hstepc hstep]. destruct (step fixed (hcf h) (hst h) (OGet i k)) as [s' b]. simpl in *. rewrite R. reflexivity.
+Qed.
+
+Lemma ell_write_coh h i phs rows k dt : hcoh h ->
+  nth_error (sixs (hst h)) i = Some (IM phs rows) ->
+  snd (estepc true fixed h (ESet i k dt)) = let (r', e) := write_mat2 (hcf h) phs rows k dt in HB (BWr e r').
+Proof.
+  intros [Hc Hm] Hi. cbn [estepc estep]. rewrite Hi.
+  destruct (mat_lookup_spec (tb (hcf h)) phs (scc (hst h)) (mc_get (smc (hst h)) phs) k Hc (Hm phs)) as (_ & _ & M3).
+  destruct (mat_lookup fixed (tb (hcf h)) phs (scc (hst h)) (mc_get (smc (hst h)) phs) k) as [[cc' mc'] r]. simpl in M3. subst r.
+  unfold write_mat2. destruct (classify_mat fixed (tb (hcf h)) phs k) as [v|e]; simpl; auto.
+  destruct (mat_set2 (comps (hcf h)) rows v dt k); reflexivity.
+Qed.
